@@ -459,6 +459,8 @@ void register_all()
     OverIdentity<double, 2>::reg();
     OverIdentity<double, 3>::reg();
     OverIdentity<double, 4>::reg();
+    OverIdentity<uint16_t, 2>::reg();   // narrow types: comparisons are done after integer promotion
+    OverIdentity<short, 3>::reg();
     OverArray<std::size_t, 1>::reg();
     OverArray<std::size_t, 2>::reg();
     OverArray<std::size_t, 3>::reg();
